@@ -887,6 +887,97 @@ def register_jacobian(prop, components):
         ORACLES.setdefault(prop, []).append(("fd:" + cname, f))
 
 
+# ---------------------------------------------------------------------------------------
+# C14  mesh generators
+# ---------------------------------------------------------------------------------------
+@oracle("C14", "generate_mesh_invariants")
+def c14_generate(rng, tier):
+    from openaerostruct.geometry.utils import generate_mesh, getFullMesh
+    nx = int(rng.integers(2, 8)); ny = int(rng.choice([3, 5, 7, 9, 13, 21]))
+    wing = str(rng.choice(["rect", "rect", "CRM", "CRM:jig", "CRM:alpha_2.75"]))
+    span = float(rng.uniform(2, 40)); chord = float(rng.uniform(0.3, 5))
+    scs = float(rng.choice([0.0, 1.0, rng.uniform(0, 1)])); ccs = float(rng.choice([0.0, 1.0, rng.uniform(0, 1)]))
+    off = rng.normal(size=3) * 4 * float(rng.integers(2))
+    base = dict(num_x=nx, num_y=ny, wing_type=wing, span_cos_spacing=scs, chord_cos_spacing=ccs, offset=off)
+    if wing == "rect":
+        base.update(span=span, root_chord=chord)
+    def gen(sym, **kw):
+        r = generate_mesh(dict(base, symmetry=sym, **kw))
+        return np.array(r[0] if isinstance(r, tuple) else r, dtype=float)
+    with quiet():
+        full = gen(False); half = gen(True)
+        noff = gen(False, offset=np.zeros(3))
+    out = []
+    case = dict(num_x=nx, num_y=ny, wing_type=wing, span_cos_spacing=scs, chord_cos_spacing=ccs)
+    if full.shape != (nx, ny, 3) or half.shape != (nx, (ny + 1) // 2, 3):
+        out.append(_fail("generated mesh has the wrong shape", [list(full.shape), list(half.shape)], [[nx, ny, 3], [nx, (ny + 1) // 2, 3]], **case))
+        return out
+    if not np.all(np.diff(full[:, :, 0], axis=0) > 0):
+        out.append(_fail("x does not increase chordwise", float(np.min(np.diff(full[:, :, 0], axis=0))), ">0", **case))
+    if not np.all(np.diff(full[:, :, 1], axis=1) > 0):
+        out.append(_fail("y does not increase spanwise", float(np.min(np.diff(full[:, :, 1], axis=1))), ">0", **case))
+    scale = max(np.max(np.abs(noff)), 1.0)
+    if np.max(np.abs(full - (noff + off))) > 1e-13 * max(scale, np.max(np.abs(off))):
+        out.append(_fail("the offset is not a pure translation", float(np.max(np.abs(full - (noff + off)))), 0.0, **case))
+    if wing == "rect":
+        if abs((noff[0, -1, 1] - noff[0, 0, 1]) - span) > 1e-12 * span or abs(noff[0, 0, 1] + span / 2) > 1e-12 * span:
+            out.append(_fail("requested span not produced", [noff[0, 0, 1], noff[0, -1, 1]], [-span / 2, span / 2], **case))
+        c = noff[-1, :, 0] - noff[0, :, 0]
+        if np.max(np.abs(c - chord)) > 1e-12 * chord:
+            out.append(_fail("requested root chord not produced", c, chord, **case))
+        xi = noff[:, 0, 0] / chord
+        u = np.linspace(0, 1, nx); cs_ = 0.5 * (1 - np.cos(np.linspace(0, np.pi, nx)))
+        if np.max(np.abs(xi - (cs_ * ccs + (1 - ccs) * u))) > 1e-12:
+            out.append(_fail("chordwise stations are not the requested blend of cosine and uniform spacing", xi, cs_ * ccs + (1 - ccs) * u, **case))
+    mir = noff[:, ::-1, :] * np.array([1, -1, 1])
+    if np.max(np.abs(mir - noff)) > 1e-12 * scale:
+        out.append(_fail("full mesh is not mirror symmetric about y = 0", float(np.max(np.abs(mir - noff))), 0.0, **case))
+    if not np.array_equal(half, full[:, : (ny + 1) // 2]):
+        out.append(_fail("symmetric half mesh is not the left half of the full mesh", "differs", "identical", **case))
+    hz = gen(True, offset=np.zeros(3)); fz = gen(False, offset=np.zeros(3))
+    back = getFullMesh(left_mesh=hz)
+    if np.max(np.abs(back - fz)) > 1e-12 * scale:
+        out.append(_fail("mirroring the half mesh back does not reproduce the full mesh", float(np.max(np.abs(back - fz))), 0.0, **case))
+    right = hz[:, ::-1].copy(); right[:, :, 1] *= -1
+    back = getFullMesh(right_mesh=right)
+    if np.max(np.abs(back - fz)) > 1e-12 * scale:
+        out.append(_fail("getFullMesh(right half) does not reproduce the full mesh", float(np.max(np.abs(back - fz))), 0.0, **case))
+    return out
+
+
+@oracle("C14", "multi_section_join_and_unify")
+def c14_sections(rng, tier):
+    from openaerostruct.geometry.geometry_mesh_gen import generate_mesh as gen_sections
+    from openaerostruct.geometry.geometry_unification import unify_mesh
+    n = int(rng.integers(2, 5)); nx = int(rng.integers(2, 5))
+    ny = [int(rng.integers(2, 6)) for _ in range(n)]
+    taper = [float(rng.choice([1.0, rng.uniform(0.5, 1.0)])) for _ in range(n)]
+    span = [float(rng.uniform(0.5, 3)) for _ in range(n)]; sweep = [float(rng.uniform(0, 0.4)) for _ in range(n)]
+    surface = dict(name="surface", num_sections=n, sec_name=["sec%d" % i for i in range(n)], symmetry=True, taper=taper, span=span,
+                   sweep=sweep, root_chord=float(rng.uniform(1, 3)), meshes="gen-meshes", nx=nx, ny=ny)
+    with quiet():
+        mesh, secs = gen_sections(surface)
+    out = []
+    case = dict(sections=n, nx=nx, ny=ny, taper=taper)
+    for i, sm in enumerate(secs):
+        if sm.shape != (nx, ny[i], 3):
+            out.append(_fail("section mesh has the wrong shape", list(sm.shape), [nx, ny[i], 3], **case))
+    for i in range(n - 1):
+        gap = float(np.max(np.abs(secs[i][:, -1, :] - secs[i + 1][:, 0, :])))
+        if gap > 1e-12:
+            out.append(_fail("neighbouring sections do not join with coincident edges", gap, 0.0, joint=i, **case))
+    # unifying C0-continuous sections reproduces the contiguous surface node for node
+    before = [np.array(sm).copy() for sm in secs]
+    sections = [dict(mesh=sm, name="s%d" % i) for i, sm in enumerate(secs)]
+    uni = unify_mesh(sections)
+    req = np.concatenate([secs[0]] + [sm[:, 1:] for sm in secs[1:]], axis=1)
+    if uni.shape != req.shape or np.max(np.abs(uni - req)) > 1e-12:
+        out.append(_fail("unifying C0-continuous sections does not reproduce the contiguous surface", list(uni.shape), list(req.shape), **case))
+    if any(not np.array_equal(a, b) for a, b in zip(before, secs)):
+        out.append(_fail("unify_mesh modified the section meshes it was given", "changed", "unchanged", **case))
+    return out
+
+
 class Discard(Exception):
     """raised by an oracle when the generated case is outside the property's quantifier"""
 from . import oracles_aero  # noqa: F401,E402
